@@ -202,15 +202,15 @@ def rep6(chk, fx):
                 continue
             root, ops = c16.chain(writes[0])
             text = "".join(c16._string_of(o) or "" for o in ops)
-            fields = [m["m"]["q"] for o in ops for m in walk(o) if m.get("k") == "MemberExpr"]
-            first_sp = any(m.get("k") == "MemberExpr" and m["m"]["q"] == PS + "current_sp" for m in walk(ops[0]))
-            named = must[1] in fields
+            # operands in canonical form: a one-expression helper (current_term_name(ps)) is a name for its expression
+            from ..canon import Canon
+            cn = Canon(f)
+            texts = [cn.c(o) for o in ops]
+            first_sp = texts[0].endswith(".current_sp") if texts else False
             if name == "syntax_error":
-                named = named and any(m.get("k") == "MemberExpr" and m["m"]["q"] == P + "term_names" for o in ops
-                                      for m in walk(o))
+                named = any(t == "term_names[$0.current_term_idx]" for t in texts)
             else:
-                named = named and any((m.get("k") == "CXXOperatorCallExpr" and m.get("op") == "*") or
-                                      (m.get("k") == "UnaryOperator" and m.get("op") == "*") for o in ops for m in walk(o))
+                named = any("*$0.current_it" in t for t in texts)
             if must[0] in text and first_sp and named:
                 if name not in done:
                     done.add(name)
